@@ -1,5 +1,271 @@
-(* proofs/NttProofs.v - C06: final theorems about model/Ntt.v (work in progress). *)
-From Coq Require Import ZArith Lia List Bool.
-From TF Require Import Word BFieldGen BField XField FieldOps Lucas FieldTheory BFieldProofs BFieldLoops BFieldOk NttRoots Ntt Dft.
+(* proofs/NttProofs.v - C06: the theorems about model/Ntt.v.
+
+   Generic part (Section Generic): for any operations records related to an abstract field K by an
+   `ntt_hom` (proofs/NttStruct.v), ntt computes dft, intt computes idft, with the documented panics.
+   Instances: the base field (bfe_ops on Montgomery words, K = Fp; unconditional) and the extension
+   field coordinate-wise (xfe_ops enters only through xadd / xsub / xscale, which act on each of the
+   three base-field coefficients separately; K = Fp; unconditional - no field structure of the extension
+   is needed for C06). *)
+From Coq Require Import ZArith Lia List Bool Arith PeanoNat ZifyNat.
+From TF Require Import Word BFieldGen BField XField FieldOps Lucas FieldTheory BFieldProofs BFieldLoops BFieldOk
+  NttRoots Ntt Dft NttLists NttStruct NttDft NttBitrev.
 Import ListNotations.
-Open Scope Z_scope.
+Local Open Scope Z_scope.
+
+Lemma Z_of_nat_pow2 l : Z.of_nat (2 ^ l) = 2 ^ Z.of_nat l.
+Proof. rewrite Nat2Z.inj_pow. reflexivity. Qed.
+Lemma is_pow2_pow2 l : is_pow2 (2 ^ Z.of_nat l) = true.
+Proof.
+  unfold is_pow2. rewrite Z.log2_pow2 by lia. rewrite Z.eqb_refl, andb_true_r. apply Z.ltb_lt.
+  apply Z.pow_pos_nonneg; lia.
+Qed.
+Lemma is_pow2_inv n : is_pow2 n = true -> exists l, n = 2 ^ Z.of_nat l.
+Proof.
+  unfold is_pow2. rewrite andb_true_iff, Z.ltb_lt, Z.eqb_eq. intros [Hp E].
+  exists (Z.to_nat (Z.log2 n)). rewrite Z2Nat.id by apply Z.log2_nonneg. exact E.
+Qed.
+Lemma pow2_le_mono l : (l <= 31)%nat -> 2 ^ Z.of_nat l <= 2147483648.
+Proof. intros H. change 2147483648 with (2 ^ 31). apply Z.pow_le_mono_r; lia. Qed.
+
+Section Generic.
+  Context {B F K : Type}.
+  Variables (sops : fops B) (ops : fops F) (act : fact B F) (fk : fieldK K).
+  Variables (okS : B -> Prop) (okF : F -> Prop) (hS : B -> K) (hF : F -> K).
+  Hypothesis H : ntt_hom sops ops act fk okS okF hS hF.
+  Hypothesis H2 : two_neq_0 fk.
+  Notation ntt := (ntt sops ops act).
+  Notation intt := (intt sops ops act).
+  Notation ntt_unchecked := (ntt_unchecked sops ops act).
+
+  Lemma ntt_unchecked_dft l x omega : (l <= 32)%nat -> length x = (2 ^ l)%nat -> Forall okF x -> okS omega ->
+    half_root fk (hS omega) l ->
+    exists y, ntt_unchecked x omega l = Some y /\ Forall okF y /\ length y = length x /\
+              map hF y = dft fk (hS omega) (map hF x).
+  Proof.
+    intros Hl Hx Hok Hom Hw. unfold Ntt.ntt_unchecked.
+    destruct x as [|d x'] eqn:Ex; [cbn in Hx; pose proof (Nat.pow_nonzero 2 l); lia|]. rewrite <- Ex in *. clear Ex x'.
+    rewrite (bitrev_permute_brev d l x Hx).
+    assert (Hb : length (brev l x) = (1 * 2 ^ l * 1)%nat) by (rewrite brev_length by exact Hx; lia).
+    rewrite (stages_P sops ops act l 1 1 _ omega _ ltac:(lia) Hb).
+    assert (Hokb : Forall okF (brev l x)).
+    { rewrite (brev_bitrev_list d) by exact Hx. unfold bitrev_list. apply Forall_forall. intros v Hv.
+      apply in_map_iff in Hv. destruct Hv as [i [<- Hi]]. rewrite Forall_forall in Hok. apply Hok, nth_In.
+      rewrite Hx. apply bitrev_nat_lt. }
+    assert (Hlen : 0 <= Z.of_nat (length x) <= 2 ^ 32).
+    { rewrite Hx, Z_of_nat_pow2. split; [apply Z.pow_nonneg; lia|apply Z.pow_le_mono_r; lia]. }
+    destruct (stagesP_hom sops ops act fk okS okF hS hF H l 1 1 _ omega _ Hom Hokb ltac:(lia) Hlen) as [O1 O2].
+    eexists. split; [reflexivity|]. split; [exact O1|]. split.
+    - rewrite stagesP_length by exact Hb. lia.
+    - rewrite O2, <- brev_map, Hx, Z_of_nat_pow2.
+      apply stages_brev_dft; [rewrite map_length; exact Hx|exact Hw].
+  Qed.
+
+  Lemma prologue_pow2 l omega : (l <= 31)%nat -> froot sops (2 ^ Z.of_nat l) = Some omega ->
+    prologue sops (2 ^ Z.of_nat l) = Some (omega, l).
+  Proof.
+    intros Hl Hr. unfold prologue. pose proof (pow2_le_mono l Hl).
+    rewrite Z.gtb_ltb. replace (4294967295 <? 2 ^ Z.of_nat l) with false by (symmetry; apply Z.ltb_ge; lia).
+    rewrite is_pow2_pow2, orb_true_r. cbn [negb]. rewrite Hr, Z.log2_pow2, Nat2Z.id by lia. reflexivity.
+  Qed.
+
+  (* NTT is the DFT *)
+  Theorem ntt_is_dft l x omega : (l <= 31)%nat -> length x = (2 ^ l)%nat -> Forall okF x ->
+    froot sops (2 ^ Z.of_nat l) = Some omega -> okS omega -> half_root fk (hS omega) l ->
+    exists y, ntt x = Some y /\ Forall okF y /\ length y = length x /\ map hF y = dft fk (hS omega) (map hF x).
+  Proof.
+    intros Hl Hx Hok Hr Hom Hw. unfold Ntt.ntt.
+    assert (En : Z.of_nat (length x) = 2 ^ Z.of_nat l) by (rewrite Hx; apply Z_of_nat_pow2).
+    rewrite En, (prologue_pow2 l omega Hl Hr).
+    apply ntt_unchecked_dft; try assumption. lia.
+  Qed.
+
+  Lemma finv_or_zero_hom s : okS s -> hS s <> k0 fk ->
+    okS (finv_or_zero sops s) /\ hS (finv_or_zero sops s) = kinv fk (hS s).
+  Proof.
+    intros Hs Hn. unfold finv_or_zero. destruct (fis_zero sops s) eqn:E.
+    - apply (nh_is_zero _ _ _ _ _ _ _ _ H s Hs) in E. contradiction.
+    - destruct (nh_inv _ _ _ _ _ _ _ _ H s Hs Hn) as [y [E1 [E2 E3]]]. rewrite E1. split; assumption.
+  Qed.
+
+  (* INTT is the inverse DFT *)
+  Theorem intt_is_idft l x omega : (l <= 31)%nat -> length x = (2 ^ l)%nat -> Forall okF x ->
+    froot sops (2 ^ Z.of_nat l) = Some omega -> okS omega -> half_root fk (hS omega) l -> hS omega <> k0 fk ->
+    exists y, intt x = Some y /\ Forall okF y /\ length y = length x /\ map hF y = idft fk (hS omega) (map hF x).
+  Proof.
+    intros Hl Hx Hok Hr Hom Hw Hw0. unfold Ntt.intt.
+    assert (En' : Z.of_nat (length x) = 2 ^ Z.of_nat l) by (rewrite Hx; apply Z_of_nat_pow2).
+    rewrite En', (prologue_pow2 l omega Hl Hr).
+    destruct (nh_inv _ _ _ _ _ _ _ _ H omega Hom Hw0) as [oi [E1 [E2 E3]]]. rewrite E1.
+    destruct (ntt_unchecked_dft l x oi ltac:(lia) Hx Hok E2) as [y [Ey [Oy [Ly My]]]].
+    { rewrite E3. apply half_root_inv; assumption. }
+    rewrite Ey.
+    assert (Hn : 0 <= 2 ^ Z.of_nat l < 2 ^ 64).
+    { split; [apply Z.pow_nonneg; lia|apply Z.pow_lt_mono_r; lia]. }
+    destruct (nh_from _ _ _ _ _ _ _ _ H _ Hn) as [On En].
+    assert (Hnz : hS (ffrom_u64 sops (2 ^ Z.of_nat l)) <> k0 fk).
+    { rewrite En, <- Z_of_nat_pow2. apply kofZ_pow2_neq_0. exact H2. }
+    destruct (finv_or_zero_hom _ On Hnz) as [Oi Ei].
+    eexists. split; [reflexivity|]. split; [|split].
+    - apply Forall_forall. intros v Hv. apply in_map_iff in Hv. destruct Hv as [e [<- He]].
+      rewrite Forall_forall in Oy. apply (nh_smul _ _ _ _ _ _ _ _ H); [apply Oy; exact He|exact Oi].
+    - rewrite map_length. exact Ly.
+    - unfold idft. rewrite map_map, map_length, Hx, Z_of_nat_pow2, <- E3, <- My, map_map.
+      apply map_ext_in. intros e He. rewrite Forall_forall in Oy.
+      destruct (nh_smul _ _ _ _ _ _ _ _ H e _ (Oy e He) Oi) as [_ ->]. rewrite Ei, En. reflexivity.
+  Qed.
+
+  (* round trips, at the level of the denoted field elements *)
+  Theorem intt_ntt l x omega : (l <= 31)%nat -> length x = (2 ^ l)%nat -> Forall okF x ->
+    froot sops (2 ^ Z.of_nat l) = Some omega -> okS omega -> half_root fk (hS omega) l -> hS omega <> k0 fk ->
+    exists y z, ntt x = Some y /\ intt y = Some z /\ Forall okF z /\ map hF z = map hF x.
+  Proof.
+    intros Hl Hx Hok Hr Hom Hw Hw0.
+    destruct (ntt_is_dft l x omega Hl Hx Hok Hr Hom Hw) as [y [Ey [Oy [Ly My]]]].
+    destruct (intt_is_idft l y omega Hl ltac:(lia) Oy Hr Hom Hw Hw0) as [z [Ez [Oz [Lz Mz]]]].
+    exists y, z. repeat split; try assumption.
+    rewrite Mz, My. apply (idft_dft fk H2 l); [rewrite map_length; exact Hx|exact Hw|exact Hw0].
+  Qed.
+  Theorem ntt_intt l x omega : (l <= 31)%nat -> length x = (2 ^ l)%nat -> Forall okF x ->
+    froot sops (2 ^ Z.of_nat l) = Some omega -> okS omega -> half_root fk (hS omega) l -> hS omega <> k0 fk ->
+    exists y z, intt x = Some y /\ ntt y = Some z /\ Forall okF z /\ map hF z = map hF x.
+  Proof.
+    intros Hl Hx Hok Hr Hom Hw Hw0.
+    destruct (intt_is_idft l x omega Hl Hx Hok Hr Hom Hw Hw0) as [y [Ey [Oy [Ly My]]]].
+    destruct (ntt_is_dft l y omega Hl ltac:(lia) Oy Hr Hom Hw) as [z [Ez [Oz [Lz Mz]]]].
+    exists y, z. repeat split; try assumption.
+    rewrite Mz, My. apply (dft_idft fk H2 l); [rewrite map_length; exact Hx|exact Hw|exact Hw0].
+  Qed.
+
+  (* documented panics: a length that is neither 0 nor a power of two, or that does not fit a u32 *)
+  Theorem ntt_panics_not_pow2 x : length x <> 0%nat -> (forall l, length x <> (2 ^ l)%nat) ->
+    ntt x = None /\ intt x = None.
+  Proof.
+    intros H0 Hp. unfold Ntt.ntt, Ntt.intt, prologue.
+    destruct (Z.of_nat (length x) >? 4294967295); [split; reflexivity|].
+    replace (Z.of_nat (length x) =? 0) with false by (symmetry; apply Z.eqb_neq; lia).
+    destruct (is_pow2 (Z.of_nat (length x))) eqn:E; [|split; reflexivity].
+    apply is_pow2_inv in E. destruct E as [l E]. exfalso. apply (Hp l).
+    rewrite <- Z_of_nat_pow2 in E. lia.
+  Qed.
+  Theorem ntt_panics_too_long x : Z.of_nat (length x) > 4294967295 -> ntt x = None /\ intt x = None.
+  Proof.
+    intros Hl. unfold Ntt.ntt, Ntt.intt, prologue.
+    rewrite Z.gtb_ltb. replace (4294967295 <? Z.of_nat (length x)) with true by (symmetry; apply Z.ltb_lt; lia).
+    split; reflexivity.
+  Qed.
+End Generic.
+
+(* ------------------------------------------------------------------ a field acting on itself *)
+Lemma ntt_hom_self {F K : Type} (o : fops F) (fk : fieldK K) ok den :
+  field_ok o fk ok den -> ntt_hom o o (mk_fact F F (fmul o) (fun x => x)) fk ok ok den den.
+Proof.
+  intros H. constructor.
+  - exact (fo_one _ _ _ _ H).
+  - exact (fo_mul _ _ _ _ H).
+  - intros a e Ha He. apply (fo_pow _ _ _ _ H); [exact Ha|]. change (2 ^ 32) with 4294967296 in He.
+    change (2 ^ 64) with 18446744073709551616. lia.
+  - exact (fo_inv _ _ _ _ H).
+  - exact (fo_from _ _ _ _ H).
+  - exact (fo_is_zero o fk ok den H).
+  - exact (fo_zero _ _ _ _ H).
+  - exact (fo_add _ _ _ _ H).
+  - exact (fo_sub _ _ _ _ H).
+  - intros a s Ha Hs. cbn [smul]. exact (fo_mul _ _ _ _ H a s Ha Hs).
+Qed.
+
+(* ------------------------------------------------------------------ the base field *)
+Lemma fp_two_neq_0 : two_neq_0 fp_field.
+Proof. unfold two_neq_0. intros E. apply (f_equal fval) in E. discriminate E. Qed.
+
+Lemma bb_hom : ntt_hom bfe_ops bfe_ops bb_act fp_field canon canon bden bden.
+Proof. exact (ntt_hom_self bfe_ops fp_field canon bden bfe_field_ok). Qed.
+
+Lemma fp_opp1 : fval (kopp fp_field (k1 fp_field)) = Lucas.P - 1.
+Proof. reflexivity. Qed.
+
+(* the tabulated roots, as field elements: exact order *)
+Theorem roots_exact_order l omega : (l <= 32)%nat -> primitive_root_of_unity (2 ^ Z.of_nat l) = Some omega ->
+  canon omega /\ kpow fp_field (bden omega) (2 ^ l) = k1 fp_field /\ half_root fp_field (bden omega) l /\
+  bden omega <> k0 fp_field /\
+  (forall d, (0 < d < 2 ^ l)%nat -> kpow fp_field (bden omega) d <> k1 fp_field).
+Proof.
+  intros Hl Hr. unfold primitive_root_of_unity in Hr.
+  destruct (assoc (2 ^ Z.of_nat l) PRIMITIVE_ROOTS) as [r|] eqn:Ea; [|discriminate Hr].
+  injection Hr as <-. apply assoc_In in Ea.
+  destruct (roots_exact_order_Z _ _ Ea) as [Rr [R1 R2]].
+  assert (Hr64 : 0 <= r < 2 ^ 64) by (unfold Lucas.P in Rr; change (2 ^ 64) with 18446744073709551616; lia).
+  destruct (bden_new r Hr64) as [C E]. rewrite E.
+  assert (Hfv : fval (fp_of r) = r) by (rewrite fval_of; apply Z.mod_small; exact Rr).
+  assert (Hhalf : half_root fp_field (fp_of r) l).
+  { destruct l as [|l']; [exact I|]. cbn [half_root]. apply Fp_eq. rewrite fp_kpow, Hfv, fp_opp1.
+    rewrite Nat2Z.inj_succ, Z.pow_succ_r in R2 by lia.
+    replace (2 * 2 ^ Z.of_nat l' / 2) with (2 ^ Z.of_nat l') in R2 by (rewrite Z.mul_comm, Z.div_mul; lia).
+    rewrite Z_of_nat_pow2. apply R2. pose proof (Z.pow_pos_nonneg 2 (Z.of_nat l')). lia. }
+  assert (Hfull : kpow fp_field (fp_of r) (2 ^ l) = k1 fp_field).
+  { apply Fp_eq. rewrite fp_kpow, Hfv, Z_of_nat_pow2. exact R1. }
+  split; [exact C|]. split; [exact Hfull|]. split; [exact Hhalf|]. split.
+  - intros E0. rewrite E0 in Hfull. destruct (2 ^ l)%nat eqn:E2; [pose proof (Nat.pow_nonzero 2 l); lia|].
+    rewrite kpow_0_l in Hfull. apply (k1_neq_0 fp_field). symmetry. exact Hfull.
+  - destruct l as [|l']; [intros d Hd; cbn in Hd; lia|].
+    apply (half_root_order fp_field fp_two_neq_0 l'). exact Hhalf.
+Qed.
+
+Lemma root_exists l : (l <= 32)%nat -> exists omega, primitive_root_of_unity (2 ^ Z.of_nat l) = Some omega.
+Proof.
+  intros Hl. destruct (primitive_root_of_unity (2 ^ Z.of_nat l)) eqn:E; [eexists; reflexivity|].
+  exfalso. apply (proj2 (root_defined_iff (2 ^ Z.of_nat l))); [|exact E]. right. exists l. split; [exact Hl|reflexivity].
+Qed.
+
+Theorem ntt_b_is_dft l x : (l <= 31)%nat -> length x = (2 ^ l)%nat -> Forall canon x ->
+  exists y omega, primitive_root_of_unity (2 ^ Z.of_nat l) = Some omega /\ ntt_b x = Some y /\
+    Forall canon y /\ length y = length x /\ map bden y = dft fp_field (bden omega) (map bden x).
+Proof.
+  intros Hl Hx Hok. destruct (root_exists l ltac:(lia)) as [omega Hr].
+  destruct (roots_exact_order l omega ltac:(lia) Hr) as [C [_ [Hh _]]].
+  destruct (ntt_is_dft bfe_ops bfe_ops bb_act fp_field canon canon bden bden bb_hom l x omega Hl Hx Hok Hr C Hh)
+    as [y Hy].
+  exists y, omega. split; [exact Hr|exact Hy].
+Qed.
+
+Theorem intt_b_is_idft l x : (l <= 31)%nat -> length x = (2 ^ l)%nat -> Forall canon x ->
+  exists y omega, primitive_root_of_unity (2 ^ Z.of_nat l) = Some omega /\ intt_b x = Some y /\
+    Forall canon y /\ length y = length x /\ map bden y = idft fp_field (bden omega) (map bden x).
+Proof.
+  intros Hl Hx Hok. destruct (root_exists l ltac:(lia)) as [omega Hr].
+  destruct (roots_exact_order l omega ltac:(lia) Hr) as [C [_ [Hh [H0 _]]]].
+  destruct (intt_is_idft bfe_ops bfe_ops bb_act fp_field canon canon bden bden bb_hom fp_two_neq_0 l x omega
+              Hl Hx Hok Hr C Hh H0) as [y Hy].
+  exists y, omega. split; [exact Hr|exact Hy].
+Qed.
+
+(* canonical words with equal denotations are equal, list-wise *)
+Lemma map_bden_inj x y : Forall canon x -> Forall canon y -> map bden x = map bden y -> x = y.
+Proof.
+  revert y. induction x as [|a x IH]; intros [|b y] Hx Hy E; try discriminate E; [reflexivity|].
+  inversion Hx; subst. inversion Hy; subst. cbn [map] in E. injection E as E1 E2.
+  f_equal; [|apply IH; assumption].
+  apply repr_unique; assumption.
+Qed.
+
+Theorem intt_ntt_b l x : (l <= 31)%nat -> length x = (2 ^ l)%nat -> Forall canon x ->
+  exists y, ntt_b x = Some y /\ intt_b y = Some x.
+Proof.
+  intros Hl Hx Hok. destruct (root_exists l ltac:(lia)) as [omega Hr].
+  destruct (roots_exact_order l omega ltac:(lia) Hr) as [C [_ [Hh [H0 _]]]].
+  destruct (intt_ntt bfe_ops bfe_ops bb_act fp_field canon canon bden bden bb_hom fp_two_neq_0 l x omega
+              Hl Hx Hok Hr C Hh H0) as [y [z [Ey [Ez [Oz Mz]]]]].
+  exists y. split; [exact Ey|]. unfold intt_b. rewrite Ez. f_equal. apply map_bden_inj; assumption.
+Qed.
+Theorem ntt_intt_b l x : (l <= 31)%nat -> length x = (2 ^ l)%nat -> Forall canon x ->
+  exists y, intt_b x = Some y /\ ntt_b y = Some x.
+Proof.
+  intros Hl Hx Hok. destruct (root_exists l ltac:(lia)) as [omega Hr].
+  destruct (roots_exact_order l omega ltac:(lia) Hr) as [C [_ [Hh [H0 _]]]].
+  destruct (ntt_intt bfe_ops bfe_ops bb_act fp_field canon canon bden bden bb_hom fp_two_neq_0 l x omega
+              Hl Hx Hok Hr C Hh H0) as [y [z [Ey [Ez [Oz Mz]]]]].
+  exists y. split; [exact Ey|]. unfold ntt_b. rewrite Ez. f_equal. apply map_bden_inj; assumption.
+Qed.
+
+(* length 0: the identity; the table has an entry for 0 *)
+Lemma ntt_b_nil : ntt_b [] = Some [] /\ intt_b [] = Some [].
+Proof. split; reflexivity. Qed.
